@@ -18,7 +18,7 @@ RULE = ("allocation-fault enumeration on the working tree's library compiled wit
         "times under ASan/UBSan (heap-balance measurement, steady-state re-measurement if needed, reported result). "
         "distinct = (scenario, k); non-trivial = the fault fired")
 EXPLANATION = ("failure propagation through IO chains (a refusing sink call makes the whole run fail; success means the "
-               "refusing call never happened) and the balance of the header functions on their allocation-failure paths are "
+               "refusing call never happened), the schedule theorem of Jose/Alloc.lean (for a call that follows the discipline a fault that fires makes it fail, one that does not changes nothing; lib/hsh.c transcribed and proved to follow it) and the balance of the header functions on their allocation-failure paths are "
                "theorems on the model; that every allocation site of the C checks its result is established by exhaustive "
                "fault enumeration per scenario: validation, not proof")
 ASSUMPTIONS = ["OpenSSL's internal allocations are not failed (the property quantifies over the library's and the JSON layer's)",
